@@ -167,7 +167,7 @@ namespace svmon
         visit_slot (i, [&] (auto& sl) {
           if (sl.live) probe (sl.get (), tag, i);
           if (! sl.canaries_ok ())
-            violate ("C13", "arena.canary", "bytes around container object v%d were overwritten", i);
+            violate ("C02", "arena.canary", "bytes around container object v%d were overwritten (write outside the object)", i);
         });
     }
 
